@@ -141,6 +141,11 @@ def run_unit(uname, tier, prop):
                 props = None
                 sp = getattr(uf, "safety_props", {}).get(fn)
                 props = sp if sp is not None else prim.props
+                if short_msg(d.message) == "decreases":
+                    # termination is a contract clause of the function, not a panic-freedom side condition
+                    oid = "%s.%s.decreases@%s" % (uname, fn, {"continue": "continue", "end": "end_of_loop"}.get(
+                        "continue" if "continue" in d.message else "end", "loop"))
+                    props = uf.fn_props.get(fn, prim.props)
         if oid is None:
             oid = "%s.%s.%s" % (uname, fn, short_msg(d.message))
             props = prim.props if prim is not None else None
@@ -290,6 +295,11 @@ def main():
         if u.verus:
             smt_s += u.verus["smt_s"]
             checker_cmds.append(u.verus["cmd"])
+    unclaimed = []
+    for u in results:
+        for f in u.failures:
+            if not f["props"]:
+                unclaimed.append({"obligation": f["obligation"], "message": f["message"], "where": f.get("repo")})
     for (u, ex) in extra:
         if not ex:
             continue
@@ -324,6 +334,8 @@ def main():
             fid.startswith(o["id"]) for fid in failed_ids) or (
             o["kind"] in ("safety", "lemma") and any(f["fn"] == o["fn"] and ".safety@" in f["obligation"] or (o["kind"] == "lemma" and f["fn"] == o["fn"]) for f in failures))
         if o.get("failed"):
+            bad = True
+        if o["id"].endswith("decreases") and any(f["fn"] == o["fn"] and ".decreases@" in f["obligation"] for f in failures):
             bad = True
         if bad:
             undischarged.append(o["id"])
@@ -385,6 +397,7 @@ def main():
             "known_finding_obligations_excluded_from_counts": n_known_excluded,
             "undischarged": undischarged,
             "undecided": undecided,
+            "unclaimed_failures": unclaimed,
             "bounded": bounded,
             "canaries": {u.unit: "%d/%d failed as required" % (getattr(u, "canaries_ok", 0), getattr(u, "canaries_total", 0)) for u in results},
             "units": units,
